@@ -4,7 +4,7 @@ import G3D.Proofs.XfAll
 import G3D.Props.C04
 import G3D.Proofs.XCBody
 import G3D.Proofs.XCFlat
-/-! # C13 — queries commute with lattice isometries and uniform scaling  (partial only for intersection results of polygons / polyhedra)
+/-! # C13 — queries commute with lattice isometries and uniform scaling  (full; polyhedron operands under `ExactHyp` of the transformed body)
     `SP` = the 48 signed axis permutations, `Xf` = signed permutation ∘ scaling by k > 0 ∘ translation. -/
 namespace G3D.Props.C13
 open G3D V3
